@@ -54,3 +54,12 @@ func VerifRunSave(pipelineCmd bool, args []string, keywords []string, category s
 	}()
 	cmd.Run(cmd, args)
 }
+
+// VerifRunRoot executes the root command with the given command-line arguments, the way main
+// does, and clears the arguments afterwards. Compiled only with the build tag verif.
+func VerifRunRoot(args []string) error {
+	rootCmd.SetArgs(args)
+	err := rootCmd.Execute()
+	rootCmd.SetArgs([]string{})
+	return err
+}
